@@ -72,6 +72,16 @@ def extra_c12(inp, o, m):
 
 def extra_c20(inp, o, m):
     d, dm = _kv(o), _kv(m)
+    if inp.split("\t")[0] == "c20r":
+        try:
+            fa, fma, fb = int(d["falloc"], 16), int(dm["fmalloc"], 16), int(dm["fbound"], 16)
+        except (KeyError, ValueError):
+            return "unparsable allocation figures"
+        if fma > fb:
+            return "flat model allocation %d exceeds the proved bound %d" % (fma, fb)
+        if fa > 4 * fma + 16384:
+            return "flat decoder allocated %d bytes into a recycled destination, model charges %d (limit 4x + 16KiB)" % (fa, fma)
+        return None
     try:
         ga, fa = int(d["alloc"], 16), int(d["falloc"], 16)
         ma, b = int(dm["malloc"], 16), int(dm["bound"], 16)
